@@ -483,7 +483,7 @@ func (s *splitmix) next() uint64 {
 func Inflate(t *rapid.T, m *mgen.Manifest, allSigned bool) BigInfo {
 	info := BigInfo{Seed: rapid.Uint64().Draw(t, "bigSeed")}
 	rng := splitmix(info.Seed)
-	info.Streams = rapid.SampledFrom([]int{1, 1, 2, 2, 3}).Draw(t, "bigStreams")
+	info.Streams = rapid.SampledFrom([]int{1, 1, 1, 2, 2, 3}).Draw(t, "bigStreams")
 	hex := func(n int) string {
 		var sb strings.Builder
 		for sb.Len() < n {
@@ -493,20 +493,22 @@ func Inflate(t *rapid.T, m *mgen.Manifest, allSigned bool) BigInfo {
 	}
 	for k := 0; k < info.Streams; k++ {
 		// a locator token is about 87 bytes: 753 make 64 KiB, 1507 make 128 KiB
+		// (most long streams sit just above one of the two sizes; rapid draws
+		// the first elements of a list more often, which is wanted here)
 		var nblk int
-		switch rapid.IntRange(0, 9).Draw(t, "bigBand") {
-		case 0:
+		switch rapid.SampledFrom([]string{"64K", "128K", "64K", "128K", "64K", "128K", "<64K", "between", "beyond", "beyond", "huge"}).Draw(t, "bigBand") {
+		case "<64K":
 			nblk = rapid.IntRange(600, 745).Draw(t, "bigBlocks") // just below 64 KiB
-		case 1, 2:
-			nblk = rapid.IntRange(746, 790).Draw(t, "bigBlocks") // around 64 KiB
-		case 3, 4:
-			nblk = rapid.IntRange(791, 1480).Draw(t, "bigBlocks")
-		case 5, 6:
-			nblk = rapid.IntRange(1481, 1560).Draw(t, "bigBlocks") // around 128 KiB
-		case 7, 8:
-			nblk = rapid.IntRange(1561, 2400).Draw(t, "bigBlocks")
+		case "64K":
+			nblk = rapid.IntRange(746, 800).Draw(t, "bigBlocks") // around and just above 64 KiB
+		case "between":
+			nblk = rapid.IntRange(801, 1480).Draw(t, "bigBlocks")
+		case "128K":
+			nblk = rapid.IntRange(1481, 1570).Draw(t, "bigBlocks") // around and just above 128 KiB
+		case "beyond":
+			nblk = rapid.IntRange(1571, 2400).Draw(t, "bigBlocks")
 		default:
-			nblk = rapid.IntRange(2401, 3300).Draw(t, "bigBlocks") // beyond 256 KiB
+			nblk = rapid.IntRange(3000, 3300).Draw(t, "bigBlocks") // beyond 256 KiB
 		}
 		info.Blocks = append(info.Blocks, nblk)
 		name := fmt.Sprintf("./big%d", k) + strings.Repeat("x", rapid.IntRange(0, 90).Draw(t, "bigNamePad"))
